@@ -69,9 +69,11 @@ Msg(u) == Ev("$e", "m.room.message", u, FALSE, "", C0)
 
 \* ---- create
 NextCreate ==
-  \E pv \in {{}, {"$x"}}, rs \in {S1, S2}, hc \in BOOLEAN :
+  \E pv \in {{}, {"$x"}}, rs \in {S1, S2}, hc \in BOOLEAN, ck \in {"empty", "x", "nokey"} :
      /\ evs' = {}
-     /\ e' = [CreateEv(TRUE) EXCEPT !.id = "$e", !.prev = pv, !.roomserver = rs, !.c.hascreator = hc]
+     \* neither the rules for m.room.create nor the selection ("for m.room.create: none") look at the state key
+     /\ e' = [CreateEv(TRUE) EXCEPT !.id = "$e", !.prev = pv, !.roomserver = rs, !.c.hascreator = hc,
+                                    !.haskey = ck # "nokey", !.key = IF ck = "x" THEN "x" ELSE ""]
 
 \* ---- early rules 2.4, 3, 4
 NextEarly ==
